@@ -406,26 +406,22 @@ func cleanupScratch() {
 var fileSeq int
 var fileMu sync.Mutex
 
-func runSolver(sc solverCfg, script string, timeoutS int) (res, rest string, dur time.Duration) {
+func runSolverCtx(ctx context.Context, sc solverCfg, script string, timeoutS int) (res, rest string, dur time.Duration) {
 	fileMu.Lock()
 	fileSeq++
 	fn := filepath.Join(scratch(), fmt.Sprintf("q%d.smt2", fileSeq))
 	fileMu.Unlock()
 	body := script
 	if sc.pre != "" {
-		body = sc.pre + script
-		if sc.name == "cvc5" {
-			// cvc5 wants produce-models before set-logic: script already starts with the option line
-			body = "(set-option :produce-models true)\n" + sc.pre + strings.TrimPrefix(script, "(set-option :produce-models true)\n")
-		}
+		body = "(set-option :produce-models true)\n" + sc.pre + strings.TrimPrefix(script, "(set-option :produce-models true)\n")
 	}
 	os.WriteFile(fn, []byte(body), 0o644)
 	defer os.Remove(fn)
 	args := sc.args(fn, timeoutS)
-	ctx, cancel := context.WithTimeout(context.Background(), time.Duration(timeoutS+5)*time.Second)
+	cctx, cancel := context.WithTimeout(ctx, time.Duration(timeoutS+5)*time.Second)
 	defer cancel()
 	t0 := time.Now()
-	cmd := exec.CommandContext(ctx, args[0], args[1:]...)
+	cmd := exec.CommandContext(cctx, args[0], args[1:]...)
 	var out bytes.Buffer
 	cmd.Stdout = &out
 	cmd.Stderr = &out
@@ -440,7 +436,7 @@ func runSolver(sc solverCfg, script string, timeoutS int) (res, rest string, dur
 	case "sat", "unsat", "unknown":
 	case "timeout":
 	default:
-		if strings.Contains(out.String(), "timeout") || ctx.Err() != nil {
+		if strings.Contains(out.String(), "timeout") || cctx.Err() != nil {
 			res = "timeout"
 		} else {
 			rest = out.String()
@@ -450,53 +446,67 @@ func runSolver(sc solverCfg, script string, timeoutS int) (res, rest string, dur
 	return
 }
 
-// solveOne: z3-new first; if it does not answer, race z3 4.8 and cvc5.
+func runSolver(sc solverCfg, script string, timeoutS int) (string, string, time.Duration) {
+	return runSolverCtx(context.Background(), sc, script, timeoutS)
+}
+
+// solveOne: quantifier-free queries go to z3-new first (then z3 4.8 and cvc5 are raced); queries with quantifiers are
+// raced on all three back ends at once (each wins a different class), the first definitive answer is taken.
 func solveOne(o *Obl, timeoutS int) Result {
 	script := o.script("")
 	if d := os.Getenv("GOVC_DUMP"); d != "" && strings.Contains(o.Name, d) {
 		os.MkdirAll("/tmp/govc-dump", 0o755)
 		os.WriteFile("/tmp/govc-dump/"+sanitize(o.Name)+".smt2", []byte(script), 0o644)
 	}
-	want := o.Expect
 	r := Result{Obl: o}
 	var total time.Duration
-	res, rest, d := runSolver(solvers[0], script, timeoutS)
-	total += d
-	r.Res, r.Backend, r.Raw = res, solvers[0].name, rest
-	if res == "sat" || res == "unsat" {
-		if res == "sat" {
-			r.Model = rest
+	race := solvers
+	if !strings.Contains(script, "(forall ") && !strings.Contains(script, "(exists ") {
+		res, rest, d := runSolver(solvers[0], script, timeoutS)
+		total += d
+		r.Res, r.Backend, r.Raw = res, solvers[0].name, rest
+		if res == "sat" || res == "unsat" || res == "error" {
+			if res == "sat" {
+				r.Model = rest
+			}
+			r.Dur = total
+			return r
 		}
-		r.Dur = total
-		return r
+		race = solvers[1:]
 	}
 	type ans struct {
 		res, rest, name string
 		d               time.Duration
 	}
-	ch := make(chan ans, 2)
-	for _, sc := range solvers[1:] {
+	ctx, cancel := context.WithCancel(context.Background())
+	defer cancel()
+	ch := make(chan ans, len(race))
+	for _, sc := range race {
 		go func(sc solverCfg) {
-			res, rest, d := runSolver(sc, script, timeoutS)
+			res, rest, d := runSolverCtx(ctx, sc, script, timeoutS)
 			ch <- ans{res, rest, sc.name, d}
 		}(sc)
 	}
-	for i := 0; i < 2; i++ {
+	var last ans
+	for i := 0; i < len(race); i++ {
 		a := <-ch
 		if a.res == "sat" || a.res == "unsat" {
+			// a "sat" from a quantified query is only trusted from z3 (MBQI-checked); cvc5 answers unknown instead
 			r.Res, r.Backend, r.Raw = a.res, a.name, a.rest
 			if a.res == "sat" {
 				r.Model = a.rest
 			}
 			r.Dur = total + a.d
-			_ = want
 			return r
 		}
-		if i == 1 {
-			total += a.d
+		if a.d > last.d {
+			last = a
+		}
+		if r.Res == "" || r.Res == "error" {
+			r.Res, r.Backend, r.Raw = a.res, a.name, a.rest
 		}
 	}
-	r.Dur = total
+	r.Dur = total + last.d
 	return r
 }
 
